@@ -127,6 +127,7 @@ def _restarts(image, res, icls, first, detail):
                         f"{detail}; direct load: {first}; first start {seen[0][0]}, second start {seen[1][0]} "
                         f"{sorted(seen[1][1]) if seen[1][1] is not None else ''}: a start on the surviving file changed "
                         f"what the file loads to"[:600])
+        return pw.elog.digest()
     finally:
         pw.close()
 
@@ -283,7 +284,7 @@ def run(scn) -> RunResult:
                 icls = "garbage"
             good = o == "ok" and got in (want_old, want_new)
             if not good or (k + (torn or 0)) % 5 == 0:
-                _restarts(image, res, icls, o if o != "ok" else "ok", f"crash at raw op {k}/{nops} torn={torn}")
+                h.update(_restarts(image, res, icls, o if o != "ok" else "ok", f"crash at raw op {k}/{nops} torn={torn}").encode())
             if o == "ok" and got == want_old:
                 res.probes["post_crash_old"] += 1
             elif o == "ok" and got == want_new:
@@ -406,9 +407,9 @@ def run_session(scn) -> RunResult:
             if o == "ok" and got in candidates:
                 res.probes["post_crash_old" if got == old_snap else "post_crash_new"] += 1
                 if k % 5 == 0:
-                    _restarts(image, res, "readable-image", "ok", f"session mode: crash at raw op {k}/{nops}")
+                    h.update(_restarts(image, res, "readable-image", "ok", f"session mode: crash at raw op {k}/{nops}").encode())
                 continue
-            _restarts(image, res, "damaged-image", o, f"session mode: crash at raw op {k}/{nops}")
+            h.update(_restarts(image, res, "damaged-image", o, f"session mode: crash at raw op {k}/{nops}").encode())
             if image in cand_images:
                 icls = "new-image"
             elif image == b"":
